@@ -160,6 +160,13 @@ FIXED = [
     ("C17", "3e4f355", "`var a=[1,2,3]; a.splice(); a.join()` was '' (splice without arguments removes nothing)"),
     ("C17", "a314334", "`var a=new Uint8Array([1,2,3,4]); a.subarray(1)[0]=9; a.join()` stayed 1,2,3,4: a subarray of an array made from a list or a length was a copy, and its `.buffer` was undefined"),
     ("C17", "2188f84", "`new Uint32Array(new ArrayBuffer(7))` built a 1-element view instead of raising RangeError"),
+    ("C13", "bf4b913", "`-2 ** 2` evaluated to 4 (parsed as (-2) ** 2): a unary operator directly in front of ** is a SyntaxError"),
+    ("C06", "0bf0637", "`NaN / 0` was -Infinity and `NaN / -0` was Infinity"),
+    ("C06", "18d50b1", "`1/((-0) ** 3)`, `1/Math.pow(-0, 1)` and `1/((-1e-200) ** 3)` were +Infinity: the zero result of ** lost its sign in the int representation"),
+    ("C04", "c20bcfc", "`var a=[3,2,1]; a.sort(function(x,y){a.push(1);return x-y})` left eval as the host's ValueError: list modified during sort"),
+    ("C17", "1e3d431", "`var a=[1,2,3]; a.forEach(function(x){a.push(x)})` ran until the time limit (forEach, map, filter, some, every, find, findIndex iterated the live list): ECMAScript visits the indices present at the start, so a.length is 6"),
+    ("C17", "14aa9e5", "`var a=[{toString:function(){a.push(this);return 'x'}}]; a.join()` ran until the time limit; join walks the indices of the start"),
+    ("C17", "44efa6d", "the sort installed on the array prototype object sorted in place with a script comparator (the same ValueError as c20bcfc on that path)"),
     ("C20", "33cb6fa", "`'baa'.search(/a/y)` was 1, `'baa'.match(/a/y)` matched, `'aaba'.replace(/a/gy,'x')` was 'xxbx' (a sticky regex matches only where it starts); `var r=/a/g; r.lastIndex=1; 'aaaa'.match(r); r.lastIndex` stayed 1 and a failed global match or replace left lastIndex as it was (global match/replace start at 0 and leave 0); a sticky non-global match/replace did not advance or reset lastIndex"),
 ]
 
